@@ -14,6 +14,19 @@ fn k_c06_allsky(depth: u8, delta: u8) {
   p_c06_allsky(depth, delta, lon, lat, f64::INFINITY);
 }
 
+/// the boundary radius alone, with the recursive descent cut away (it pushes nothing): if the all-sky special case is not taken
+/// for radius == pi the result is not the 12 full base cells and the harness fails at once (the uncut recursion over
+/// nondeterministic libm values runs out of memory at 30 GB instead of producing a counter-example)
+pub(crate) fn stub_recur_nothing<F>(_l: &Layer, _depth: u8, _hash: u64, _f: &F, _mm: &[super::MinMax], _rd: u8, _b: &mut BMOCBuilderUnsafe)
+  where F: Fn((f64, f64)) -> f64 {}
+
+fn k_c06_allsky_pi(depth: u8, delta: u8) {
+  let lon: f64 = kani::any();
+  let lat: f64 = kani::any();
+  kani::assume(lon >= 0.0 && lon <= 6.3 && lat >= -C_HALF_PI && lat <= C_HALF_PI);
+  p_c06_allsky(depth, delta, lon, lat, C_PI);
+}
+
 // ---- threshold logic of the recursive descent (real cone_coverage_approx_recur) -----------------------------------
 // Layer::center is replaced by a recorder of the visited cell; the distance closure returns an arbitrary non-negative value
 // per visited cell and logs it. Whatever these values are: a cell is pushed `full` iff its value <= min of its level, pushed
